@@ -161,6 +161,9 @@ def run(ctx):
             configs.append(('hashrightjoin(cache=%s)' % c, r, (lambda T=T, c=c: etl.hashrightjoin(R, T, key='k', cache=c)), None))
         configs.append(('fromdicts(generator)', r, (lambda T=T: etl.fromdicts((dict(zip(T[0], row)) for row in T[1:]), header=T[0])), None))
         configs.append(('fromdicts(generator,sample)', r, (lambda T=T: etl.fromdicts((dict(zip(T[0], row)) for row in T[1:]), sample=1)), None))
+        # dicts without keys (a table without fields), and a first dict without keys followed by others with keys under sample=1
+        configs.append(('fromdicts(generator, no fields)', r, (lambda r=r: etl.fromdicts(({} for _ in range(r)))), None))
+        configs.append(('fromdicts(generator, first dict empty)', r, (lambda r=r: etl.fromdicts((({} if i == 0 else {'a': i}) for i in range(r)), sample=1)), None))
         # one-shot iterators that are not generators (iter(list), map objects): a table made from one is re-iterable too
         configs.append(('fromdicts(iterator)', r, (lambda T=T: etl.fromdicts(iter([dict(zip(T[0], row)) for row in T[1:]]), header=T[0])), None))
         configs.append(('fromdicts(map object)', r, (lambda T=T: etl.fromdicts(map(lambda row: dict(zip(T[0], row)), T[1:]), header=T[0])), None))
